@@ -1047,3 +1047,30 @@ pub mod verif_hooks {
         }
     }
 }
+
+/// Verification hook (only with `--cfg scylla_verif`): pass-through to the private
+/// `ClusterState::perform_tablets_maintenance`, which derives the removed and the recreated
+/// nodes from the old and the new known nodes and calls `TabletsInfo::perform_maintenance`.
+#[cfg(scylla_verif)]
+#[allow(missing_docs)]
+pub mod verif_hooks_tablets {
+    use super::{ClusterState, KnownNodes};
+    use crate::routing::locator::tablets::verif_hooks::{
+        KeyspaceDesc, VerifTablets, keyspaces_from_descs,
+    };
+
+    pub fn perform_tablets_maintenance(
+        tablets: &mut VerifTablets,
+        old_known_nodes: &KnownNodes,
+        new_known_nodes: &KnownNodes,
+        keyspaces: &[KeyspaceDesc],
+    ) {
+        let keyspaces = keyspaces_from_descs(keyspaces);
+        ClusterState::perform_tablets_maintenance(
+            tablets.info_mut(),
+            old_known_nodes,
+            new_known_nodes,
+            &keyspaces,
+        )
+    }
+}
